@@ -20,12 +20,23 @@
   What is a cryptographic ASSUMPTION and therefore an explicit hypothesis, never an axiom:
     * "different messages ⇒ different digests" is collision resistance of SHA-256d; it appears as
       the hypothesis `hcr` of `committed_edit_changes_digest` for exactly the two messages at hand;
-    * "a signature valid for one digest is not valid for another / not valid under another key" is
-      ECDSA unforgeability; it is not expressible as a theorem about the verifier and is checked
-      only empirically by the tie (harness/props/c05.py).
+    * "the signature that was made for the old digest does not verify for the new, different digest"
+      (`hunf` of the `*_committed_edit_rejects` theorems of Part 3) is ECDSA unforgeability for that
+      ONE instance.  It is not, and must not be, the blanket claim "a signature verifies for one digest
+      only", which is false for ECDSA (audit finding F1);
+    * "the library's signer produces a signature the verifier accepts" (`horacle` of the
+      `template_accepts_*` theorems) is ECDSA correctness of OpenSSL's signer; proving it for the Lean
+      curve would need the group law.  It is established only by the end-to-end run of the tie.
+
+  PART 2: closed-form verdicts of the interpreter model (C06) on the standard templates, any context.
+  PART 3: verdicts under edits of the transaction, reference context `txCtx`.
+  PART 4: the same for the CONCRETE context of the library model (`Real.realCtx`: the model of
+          `RawSignatureHash` + the Lean ECDSA + the executable hashes): the digest Part 1 speaks about
+          is the digest the modelled `_CheckSig` verifies (C03 `raw_eq_spec`, side conditions proved).
 -/
 import BtcVerif.Proofs.Commit
 import BtcVerif.Proofs.C05Templates
+import BtcVerif.Proofs.C05Real
 
 namespace BtcVerif.C05
 open BtcVerif BtcVerif.Spec.Sighash BtcVerif.Spec.Commit BtcVerif.Spec.Wire BtcVerif.CommitProofs
@@ -73,6 +84,12 @@ theorem irregular_sighash (sc : Bytes) (t : Tx) (i ht : Nat) (h : ¬ Regular ht 
         exact h ⟨by omega, fun _ => hlt⟩
       · exact absurd ⟨by omega, fun hs' => absurd hs' hs⟩ h
     rw [if_pos h2]
+
+/-- in the regular case the digest is the double SHA-256 of the hashed message, without error flag -/
+theorem regular_sighash (sc : Bytes) (t : Tx) (i ht : Nat) (h : Regular ht i t) :
+    legacySighash sc t i ht = (Crypto.hash256 (legacyPreimage sc t i ht), false) := by
+  unfold legacySighash
+  rw [if_neg (by have := h.1; omega), if_neg (by rintro ⟨hs, hge⟩; have := h.2 hs; omega)]
 
 /-! ### the table over edits -/
 
@@ -257,7 +274,7 @@ example : changedParts 1 1 exTx (apply (.swapInputs 0 2) exTx) ≠ [] ∧
   made with key j for the digest of the spending transaction" is ECDSA correctness of the signer;
   "the oracle rejects a signature made with any other key, or for another digest" is ECDSA
   unforgeability.  Neither is provable about a verifier; both appear as the hypotheses `horacle`,
-  `huniq` below, and the tie checks them empirically with the Lean ECDSA against OpenSSL.
+  `hunf` below, and the tie checks them empirically with the Lean ECDSA against OpenSSL.
 
   Size hypotheses (`… < 0x4c`): keys (33 / 65 bytes) and DER signatures with hash-type byte (9 … 74
   bytes) are pushed directly.  `body.length + 1 ≠ key.length` etc. exclude the contrived case in which
@@ -443,14 +460,23 @@ end templates
       (no assumption at all);
     * a `Committed` edit that changes a committed part turns acceptance into `VerifyScriptError`,
       PROVIDED (hypotheses, the cryptographic half) SHA-256d does not collide on the two hashed
-      messages (`hcr`) and the signature is valid for no other digest than the one it was made for
-      (`huniq`, a consequence of ECDSA unforgeability). -/
+      messages (`hcr` — with it the table theorems give "the new digest differs from the signed one")
+      and the old signature does not verify for THAT new digest (`hunf`: one instance, for the one
+      digest of the edited transaction, conditional on its being different).  `hunf` is the
+      unforgeability assumption for this instance — an adversary who edits a committed part and keeps
+      the signature has produced a signature on a new message.  It is NOT assumed that a signature is
+      valid for a single digest only: that is false for ECDSA (a signature (r, s) valid for z under the
+      secret d is also valid for −z − 2rd mod n, and for z + n when that is below 2^256; audit F1);
+      `hunf` holds for all but those ≤ 2 exceptional values of the new digest, which an editor of the
+      transaction can hit only by inverting SHA-256d.  Supplying the plain fact
+      `ecdsa body key (new digest) = false` discharges `hunf` (and then `hcr` and the table hypotheses
+      are not needed at all: that degenerate form is `template_rejects_wrong_key_*`). -/
 
 section edits
 open BtcVerif.Model.ScriptEval BtcVerif.Spec.Script BtcVerif.Spec.Templates BtcVerif.C05T
 variable (hashes : Hashes) (ecdsa : Bytes → Bytes → Bytes → Bool) (tx : Tx) (i : Nat) (e : Edit) (fl : Flags)
 
-theorem txCtx_inIdx : (txCtx hashes ecdsa tx i).SigTotal := ⟨fun _ _ _ => ⟨_, rfl⟩⟩
+theorem txCtx_inIdx : (txCtx hashes ecdsa tx i).SigTotal := ⟨fun _ _ _ _ _ => ⟨_, rfl⟩⟩
 
 /-- the signature oracle of the edited transaction agrees with that of the original on every
     signature whose hash type leaves the edit uncommitted -/
@@ -474,10 +500,11 @@ theorem sigCheck_committed_edit (body key sc : Bytes) (ht : Nat)
     (hr : Regular ht i tx) (hr' : Regular ht i (apply e tx))
     (hcr : Crypto.hash256 (legacyPreimage sc (apply e tx) i ht) = Crypto.hash256 (legacyPreimage sc tx i ht) →
             legacyPreimage sc (apply e tx) i ht = legacyPreimage sc tx i ht)
-    (huniq : ∀ d', d' ≠ (legacySighash sc tx i ht).1 → ecdsa body key d' = false) :
+    (hunf : (legacySighash sc (apply e tx) i ht).1 ≠ (legacySighash sc tx i ht).1 →
+      ecdsa body key (legacySighash sc (apply e tx) i ht).1 = false) :
     (txEnv hashes ecdsa (apply e tx) i).sigCheck body key sc ht = false := by
   simp only [txEnv]
-  exact huniq _ (committed_edit_changes_digest sc tx i ht e hC hch hsc wf wf' hr hr' hcr)
+  exact hunf (committed_edit_changes_digest sc tx i ht e hC hch hsc wf wf' hr hr' hcr)
 
 /-! ### uncommitted edits: same verdict (no assumption) -/
 
@@ -534,13 +561,14 @@ theorem p2pk_committed_edit_rejects (body : Bytes) (ht : UInt8) (key : Bytes)
     (hcr : Crypto.hash256 (legacyPreimage (p2pkScript key) (apply e tx) i ht.toNat) =
              Crypto.hash256 (legacyPreimage (p2pkScript key) tx i ht.toNat) →
            legacyPreimage (p2pkScript key) (apply e tx) i ht.toNat = legacyPreimage (p2pkScript key) tx i ht.toNat)
-    (huniq : ∀ d', d' ≠ (legacySighash (p2pkScript key) tx i ht.toNat).1 → ecdsa body key d' = false) :
+    (hunf : (legacySighash (p2pkScript key) (apply e tx) i ht.toNat).1 ≠ (legacySighash (p2pkScript key) tx i ht.toNat).1 →
+      ecdsa body key (legacySighash (p2pkScript key) (apply e tx) i ht.toNat).1 = false) :
     verifyScript (txCtx hashes ecdsa (apply e tx) i) fl (p2pkScriptSig (body ++ [ht])) (p2pkScript key) =
       .error .verify := by
   apply template_rejects_wrong_key_p2pk _ fl body ht key hfl (txCtx_inIdx ..) hk hs hne
   have hsc : (p2pkScript key).length ≤ maxSize := by
     simp [p2pkScript, pushData, maxSize]; omega
-  exact sigCheck_committed_edit hashes ecdsa tx i e body key _ _ hC hch hsc wf wf' hr hr' hcr huniq
+  exact sigCheck_committed_edit hashes ecdsa tx i e body key _ _ hC hch hsc wf wf' hr hr' hcr hunf
 
 theorem p2pkh_committed_edit_rejects (body : Bytes) (ht : UInt8) (key : Bytes)
     (hfl : fl.admissible = true) (hk : key.length < 0x4c) (hs : body.length + 1 < 0x4c)
@@ -551,32 +579,34 @@ theorem p2pkh_committed_edit_rejects (body : Bytes) (ht : UInt8) (key : Bytes)
              Crypto.hash256 (legacyPreimage (p2pkhScript (hashes.hash160 key)) tx i ht.toNat) →
            legacyPreimage (p2pkhScript (hashes.hash160 key)) (apply e tx) i ht.toNat =
              legacyPreimage (p2pkhScript (hashes.hash160 key)) tx i ht.toNat)
-    (huniq : ∀ d', d' ≠ (legacySighash (p2pkhScript (hashes.hash160 key)) tx i ht.toNat).1 →
-      ecdsa body key d' = false) :
+    (hunf : (legacySighash (p2pkhScript (hashes.hash160 key)) (apply e tx) i ht.toNat).1 ≠
+        (legacySighash (p2pkhScript (hashes.hash160 key)) tx i ht.toNat).1 →
+      ecdsa body key (legacySighash (p2pkhScript (hashes.hash160 key)) (apply e tx) i ht.toNat).1 = false) :
     verifyScript (txCtx hashes ecdsa (apply e tx) i) fl (p2pkhScriptSig (body ++ [ht]) key)
         (p2pkhScript (hashes.hash160 key)) = .error .verify := by
   have hsc : (p2pkhScript (hashes.hash160 key)).length ≤ maxSize := by
     simp [p2pkhScript, pushData, maxSize, hhl]
   exact template_rejects_wrong_key_p2pkh (txCtx hashes ecdsa (apply e tx) i) fl body ht key hfl (txCtx_inIdx ..)
-    hk hs hhl hne (sigCheck_committed_edit hashes ecdsa tx i e body key _ _ hC hch hsc wf wf' hr hr' hcr huniq)
+    hk hs hhl hne (sigCheck_committed_edit hashes ecdsa tx i e body key _ _ hC hch hsc wf wf' hr hr' hcr hunf)
 
 /-- the oracle of the edited transaction rejects every signature of the list, whatever the key -/
-theorem chkSig_committed_edit (sc : Bytes) (sigs : List Bytes) (hsc : sc.length ≤ maxSize)
+theorem chkSig_committed_edit (sc : Bytes) (sigs keys : List Bytes) (hsc : sc.length ≤ maxSize)
     (wf : WFc tx) (wf' : WFc (apply e tx))
     (hB : ∀ s ∈ sigs, ∀ ht, s.getLast? = some ht →
       Committed ht.toNat i e = true ∧ changes ht.toNat i e tx ∧ Regular ht.toNat i tx ∧
       Regular ht.toNat i (apply e tx) ∧
       (Crypto.hash256 (legacyPreimage sc (apply e tx) i ht.toNat) = Crypto.hash256 (legacyPreimage sc tx i ht.toNat) →
         legacyPreimage sc (apply e tx) i ht.toNat = legacyPreimage sc tx i ht.toNat) ∧
-      (∀ k d', d' ≠ (legacySighash sc tx i ht.toNat).1 → ecdsa s.dropLast k d' = false)) :
-    ∀ s ∈ sigs, ∀ k, chkSig (txEnv hashes ecdsa (apply e tx) i) sc s k = false := by
-  intro s hs k
+      (∀ k ∈ keys, (legacySighash sc (apply e tx) i ht.toNat).1 ≠ (legacySighash sc tx i ht.toNat).1 →
+        ecdsa s.dropLast k (legacySighash sc (apply e tx) i ht.toNat).1 = false)) :
+    ∀ s ∈ sigs, ∀ k ∈ keys, chkSig (txEnv hashes ecdsa (apply e tx) i) sc s k = false := by
+  intro s hs k hkm
   unfold chkSig
   cases hl : s.getLast? with
   | none => rfl
   | some ht =>
-    obtain ⟨hC, hch, hr, hr', hcr, huniq⟩ := hB s hs ht hl
-    exact sigCheck_committed_edit hashes ecdsa tx i e _ k sc _ hC hch hsc wf wf' hr hr' hcr (huniq k)
+    obtain ⟨hC, hch, hr, hr', hcr, hunf⟩ := hB s hs ht hl
+    exact sigCheck_committed_edit hashes ecdsa tx i e _ k sc _ hC hch hsc wf wf' hr hr' hcr (hunf k hkm)
 
 theorem multisig_committed_edit_rejects (m : Nat) (keys sigs : List Bytes)
     (hfl : fl.admissible = true) (hm1 : 1 ≤ m) (hmn : m ≤ keys.length) (hn : keys.length ≤ 20)
@@ -590,7 +620,9 @@ theorem multisig_committed_edit_rejects (m : Nat) (keys sigs : List Bytes)
           Crypto.hash256 (legacyPreimage (multisigScript m keys) tx i ht.toNat) →
         legacyPreimage (multisigScript m keys) (apply e tx) i ht.toNat =
           legacyPreimage (multisigScript m keys) tx i ht.toNat) ∧
-      (∀ k d', d' ≠ (legacySighash (multisigScript m keys) tx i ht.toNat).1 → ecdsa s.dropLast k d' = false)) :
+      (∀ k ∈ keys, (legacySighash (multisigScript m keys) (apply e tx) i ht.toNat).1 ≠
+          (legacySighash (multisigScript m keys) tx i ht.toNat).1 →
+        ecdsa s.dropLast k (legacySighash (multisigScript m keys) (apply e tx) i ht.toNat).1 = false)) :
     verifyScript (txCtx hashes ecdsa (apply e tx) i) fl (multisigScriptSig sigs) (multisigScript m keys) =
       .error .verify := by
   have hL := pushAll_length_le keys hk
@@ -599,15 +631,15 @@ theorem multisig_committed_edit_rejects (m : Nat) (keys sigs : List Bytes)
   have hsc : (multisigScript m keys).length ≤ maxSize := by
     simp only [multisigScript, List.length_append, List.length_singleton, maxSize]; omega
   rw [verify_multisig _ fl m keys sigs hfl (txCtx_inIdx ..) hm1 hmn hn hsl hk hs hs1 hne]
-  have hf := chkSig_committed_edit hashes ecdsa tx i e (multisigScript m keys) sigs hsc wf wf' hB
+  have hf := chkSig_committed_edit hashes ecdsa tx i e (multisigScript m keys) sigs keys hsc wf wf' hB
   have : greedy (chkSig (txCtx hashes ecdsa (apply e tx) i).env (multisigScript m keys)) sigs.reverse keys.reverse =
       false := by
-    apply greedy_all_false
+    apply greedy_all_false_mem
     · intro h
       have : sigs.length = 0 := by simpa using congrArg List.length h
       omega
-    · intro s hs' k
-      exact hf s (by simpa using hs') k
+    · intro s hs' k hk'
+      exact hf s (by simpa using hs') k (by simpa using hk')
   rw [this]; rfl
 
 /-! ### the same for the P2SH wrappings (the script code is the serialised script) -/
@@ -685,7 +717,8 @@ theorem p2sh_p2pk_committed_edit_rejects (body : Bytes) (ht : UInt8) (key : Byte
     (hcr : Crypto.hash256 (legacyPreimage (p2pkScript key) (apply e tx) i ht.toNat) =
              Crypto.hash256 (legacyPreimage (p2pkScript key) tx i ht.toNat) →
            legacyPreimage (p2pkScript key) (apply e tx) i ht.toNat = legacyPreimage (p2pkScript key) tx i ht.toNat)
-    (huniq : ∀ d', d' ≠ (legacySighash (p2pkScript key) tx i ht.toNat).1 → ecdsa body key d' = false) :
+    (hunf : (legacySighash (p2pkScript key) (apply e tx) i ht.toNat).1 ≠ (legacySighash (p2pkScript key) tx i ht.toNat).1 →
+      ecdsa body key (legacySighash (p2pkScript key) (apply e tx) i ht.toNat).1 = false) :
     verifyScript (txCtx hashes ecdsa (apply e tx) i) fl
         (p2shScriptSig (p2pkScriptSig (body ++ [ht])) (p2pkScript key)) (p2shScript (hashes.hash160 (p2pkScript key))) =
       .error .verify := by
@@ -693,7 +726,7 @@ theorem p2sh_p2pk_committed_edit_rejects (body : Bytes) (ht : UInt8) (key : Byte
   rw [show (txCtx hashes ecdsa (apply e tx) i).env.hashes = hashes from rfl] at e1
   have hsc : (p2pkScript key).length ≤ maxSize := by
     simp [p2pkScript, pushData, maxSize]; omega
-  have := sigCheck_committed_edit hashes ecdsa tx i e body key _ _ hC hch hsc wf wf' hr hr' hcr huniq
+  have := sigCheck_committed_edit hashes ecdsa tx i e body key _ _ hC hch hsc wf wf' hr hr' hcr hunf
   rw [e1]
   show (if (txEnv hashes ecdsa (apply e tx) i).sigCheck _ _ _ _ = true then _ else _) = _
   rw [this]; rfl
@@ -707,8 +740,9 @@ theorem p2sh_p2pkh_committed_edit_rejects (body : Bytes) (ht : UInt8) (key : Byt
              Crypto.hash256 (legacyPreimage (p2pkhScript (hashes.hash160 key)) tx i ht.toNat) →
            legacyPreimage (p2pkhScript (hashes.hash160 key)) (apply e tx) i ht.toNat =
              legacyPreimage (p2pkhScript (hashes.hash160 key)) tx i ht.toNat)
-    (huniq : ∀ d', d' ≠ (legacySighash (p2pkhScript (hashes.hash160 key)) tx i ht.toNat).1 →
-      ecdsa body key d' = false) :
+    (hunf : (legacySighash (p2pkhScript (hashes.hash160 key)) (apply e tx) i ht.toNat).1 ≠
+        (legacySighash (p2pkhScript (hashes.hash160 key)) tx i ht.toNat).1 →
+      ecdsa body key (legacySighash (p2pkhScript (hashes.hash160 key)) (apply e tx) i ht.toNat).1 = false) :
     let redeem := p2pkhScript (hashes.hash160 key)
     verifyScript (txCtx hashes ecdsa (apply e tx) i) fl (p2shScriptSig (p2pkhScriptSig (body ++ [ht]) key) redeem)
         (p2shScript (hashes.hash160 redeem)) = .error .verify := by
@@ -717,7 +751,7 @@ theorem p2sh_p2pkh_committed_edit_rejects (body : Bytes) (ht : UInt8) (key : Byt
   rw [show (txCtx hashes ecdsa (apply e tx) i).env.hashes = hashes from rfl] at e1
   have hsc : (p2pkhScript (hashes.hash160 key)).length ≤ maxSize := by
     simp [p2pkhScript, pushData, maxSize, hhl]
-  have := sigCheck_committed_edit hashes ecdsa tx i e body key _ _ hC hch hsc wf wf' hr hr' hcr huniq
+  have := sigCheck_committed_edit hashes ecdsa tx i e body key _ _ hC hch hsc wf wf' hr hr' hcr hunf
   rw [e1]
   show (if (txEnv hashes ecdsa (apply e tx) i).sigCheck _ _ _ _ = true then _ else _) = _
   rw [this]; rfl
@@ -736,7 +770,9 @@ theorem p2sh_multisig_committed_edit_rejects (m : Nat) (keys sigs : List Bytes)
           Crypto.hash256 (legacyPreimage (multisigScript m keys) tx i ht.toNat) →
         legacyPreimage (multisigScript m keys) (apply e tx) i ht.toNat =
           legacyPreimage (multisigScript m keys) tx i ht.toNat) ∧
-      (∀ k d', d' ≠ (legacySighash (multisigScript m keys) tx i ht.toNat).1 → ecdsa s.dropLast k d' = false)) :
+      (∀ k ∈ keys, (legacySighash (multisigScript m keys) (apply e tx) i ht.toNat).1 ≠
+          (legacySighash (multisigScript m keys) tx i ht.toNat).1 →
+        ecdsa s.dropLast k (legacySighash (multisigScript m keys) (apply e tx) i ht.toNat).1 = false)) :
     let redeem := multisigScript m keys
     verifyScript (txCtx hashes ecdsa (apply e tx) i) fl (p2shScriptSig (multisigScriptSig sigs) redeem)
         (p2shScript (hashes.hash160 redeem)) = .error .verify := by
@@ -748,18 +784,473 @@ theorem p2sh_multisig_committed_edit_rejects (m : Nat) (keys sigs : List Bytes)
   show verifyScript _ fl (multisigScriptSig sigs ++ pushEnc (multisigScript m keys)) _ = _
   rw [e1]
   have hsc : (multisigScript m keys).length ≤ maxSize := by simp only [maxSize]; omega
-  have hf := chkSig_committed_edit hashes ecdsa tx i e (multisigScript m keys) sigs hsc wf wf' hB
+  have hf := chkSig_committed_edit hashes ecdsa tx i e (multisigScript m keys) sigs keys hsc wf wf' hB
   have : greedy (chkSig (txCtx hashes ecdsa (apply e tx) i).env (multisigScript m keys)) sigs.reverse keys.reverse =
       false := by
-    apply greedy_all_false
+    apply greedy_all_false_mem
     · intro h
       have : sigs.length = 0 := by simpa using congrArg List.length h
       omega
-    · intro s hs' k
-      exact hf s (by simpa using hs') k
+    · intro s hs' k hk'
+      exact hf s (by simpa using hs') k (by simpa using hk')
   rw [this]; rfl
 
 end edits
+
+
+/-! ## PART 4 — the concrete environment of the library model
+
+  `Model.ScriptEval.Real.realCtx tx i` (Model/ScriptEnvReal.lean, engineer c06) is the context the
+  model of `VerifyScript(…, tx, i)` really runs in: `_CheckSig` computes
+  `Model.Sighash.rawSignatureHash` — the MODEL of the library's `RawSignatureHash` (C03) — and checks
+  the signature with SEC1 decoding, strict DER and ECDSA over secp256k1 (`Real.ecdsaCheck`); the hash
+  opcodes are the executable SHA-1 / RIPEMD-160 / SHA-256.
+  The theorems below compose the template verdicts of Part 2 with C03's `Model = Spec` theorem: the
+  side conditions of `C03.raw_eq_spec` (script code tokenises, shorter than 2^64, one-byte hash type)
+  are PROVED for every template script code; what remains is `FieldsWF tx` (fields in wire range).
+  The HASH160 length hypothesis of Part 2 is discharged for the real hashes (Proofs/CryptoLen).
+  So: the digest about which Part 1 speaks (`Spec.Sighash.legacySighash`) is the digest the modelled
+  `_CheckSig` verifies, and the verdict of the modelled VerifyScript on a template is exactly
+  "ECDSA accepts (signature, key, that digest)". -/
+
+section real
+open BtcVerif.Model.ScriptEval BtcVerif.Spec.Script BtcVerif.Spec.Templates BtcVerif.C05T
+open BtcVerif.Model.ScriptEval.Real
+
+variable (tx : Tx) (i : Nat) (fl : Flags)
+
+/-- the concrete signature check is ECDSA over the reference digest, for every script code that
+    tokenises (C03 `raw_eq_spec` composed with the definition of `realSigCheck`) -/
+theorem realSigCheck_eq_spec (body key sc : Bytes) (ht : Nat) (hp : parses sc) (hsc : sc.length < 2 ^ 64)
+    (hwf : FieldsWF tx) (hht : ht < 256) :
+    (realCtx tx (i : Int)).env.sigCheck body key sc ht = ecdsaCheck body key (legacySighash sc tx i ht).1 :=
+  real_sigCheck tx i body key sc ht hp hsc hwf hht
+
+/-- the template script codes tokenise (side condition of C03 discharged) -/
+theorem template_script_codes_parse :
+    (∀ key : Bytes, key.length < 0x4c → parses (p2pkScript key)) ∧
+    (∀ h : Bytes, h.length < 0x4c → parses (p2pkhScript h)) ∧
+    (∀ (m : Nat) (keys : List Bytes), (∀ k ∈ keys, k.length < 0x4c) → parses (multisigScript m keys)) :=
+  ⟨parses_p2pk, parses_p2pkh, parses_multisig⟩
+
+theorem p2pk_verify_real (body : Bytes) (ht : UInt8) (key : Bytes)
+    (hfl : fl.admissible = true) (hwf : FieldsWF tx) (hk : key.length < 0x4c) (hs : body.length + 1 < 0x4c)
+    (hne : body.length + 1 ≠ key.length) :
+    verifyScript (realCtx tx (i : Int)) fl (p2pkScriptSig (body ++ [ht])) (p2pkScript key) =
+      if ecdsaCheck body key (legacySighash (p2pkScript key) tx i ht.toNat).1 then .ok () else .error .verify := by
+  have hl : (p2pkScript key).length < 2 ^ 64 := by simp [p2pkScript, pushData]; omega
+  rw [p2pk_verify _ fl body ht key hfl (realCtx_inIdx tx i hwf) hk hs hne,
+    realSigCheck_eq_spec tx i body key _ _ (parses_p2pk key hk) hl hwf ht.toNat_lt]
+
+theorem p2pkh_verify_real (body : Bytes) (ht : UInt8) (key : Bytes)
+    (hfl : fl.admissible = true) (hwf : FieldsWF tx) (hk : key.length < 0x4c) (hs : body.length + 1 < 0x4c)
+    (hne : body.length + 1 ≠ 20) :
+    verifyScript (realCtx tx (i : Int)) fl (p2pkhScriptSig (body ++ [ht]) key) (p2pkhScript (realHashes.hash160 key)) =
+      if ecdsaCheck body key (legacySighash (p2pkhScript (realHashes.hash160 key)) tx i ht.toNat).1 then .ok ()
+      else .error .verify := by
+  have hh := realHashes_hash160_length key
+  have hl : (p2pkhScript (realHashes.hash160 key)).length < 2 ^ 64 := by simp [p2pkhScript, pushData, hh]
+  have e := p2pkh_verify (realCtx tx (i : Int)) fl body ht key hfl (realCtx_inIdx tx i hwf) hk hs
+    (real_hash160_length tx i key) hne
+  rw [show (realCtx tx (i : Int)).env.hashes.hash160 key = realHashes.hash160 key from rfl] at e
+  rw [e, realSigCheck_eq_spec tx i body key _ _ (parses_p2pkh _ (by omega)) hl hwf ht.toNat_lt]
+
+/-- multisig: the oracle of the matcher is ECDSA over the reference digest -/
+theorem multisig_verify_real (m : Nat) (keys sigs : List Bytes)
+    (hfl : fl.admissible = true) (hwf : FieldsWF tx) (hm1 : 1 ≤ m) (hmn : m ≤ keys.length)
+    (hn : keys.length ≤ 20) (hsl : sigs.length = m)
+    (hk : ∀ k ∈ keys, k.length < 0x4c) (hs : ∀ s ∈ sigs, s.length < 0x4c) (hs1 : ∀ s ∈ sigs, s.length ≠ 1)
+    (hne : ∀ s ∈ sigs, ∀ k ∈ keys, s.length ≠ k.length) :
+    let chk := chkSig (txEnv realHashes ecdsaCheck tx i) (multisigScript m keys)
+    (Matching chk sigs keys →
+      verifyScript (realCtx tx (i : Int)) fl (multisigScriptSig sigs) (multisigScript m keys) = .ok ()) ∧
+    (¬ Matching chk sigs keys →
+      verifyScript (realCtx tx (i : Int)) fl (multisigScriptSig sigs) (multisigScript m keys) = .error .verify) := by
+  intro chk
+  have hl : (multisigScript m keys).length < 2 ^ 64 := by
+    have := multisig_length_le m keys hk; omega
+  have hchk : chkSig (realCtx tx (i : Int)).env (multisigScript m keys) = chk := by
+    funext s k
+    exact real_chkSig tx i _ s k (parses_multisig m keys hk) hl hwf
+  have := multisig_verify (realCtx tx (i : Int)) fl m keys sigs hfl (realCtx_inIdx tx i hwf) hm1 hmn hn hsl hk hs hs1 hne
+  rw [hchk] at this
+  exact this
+
+theorem p2sh_p2pk_verify_real (body : Bytes) (ht : UInt8) (key : Bytes)
+    (hfl : fl.admissible = true) (hp : fl.p2sh = true) (hwf : FieldsWF tx) (hk : key.length + 2 < 0x4c)
+    (hs : body.length + 1 < 0x4c) (hne : body.length + 1 ≠ key.length) :
+    verifyScript (realCtx tx (i : Int)) fl (p2shScriptSig (p2pkScriptSig (body ++ [ht])) (p2pkScript key))
+        (p2shScript (realHashes.hash160 (p2pkScript key))) =
+      if ecdsaCheck body key (legacySighash (p2pkScript key) tx i ht.toNat).1 then .ok () else .error .verify := by
+  have hl : (p2pkScript key).length < 2 ^ 64 := by simp [p2pkScript, pushData]; omega
+  have e := p2sh_p2pk_verify (realCtx tx (i : Int)) fl body ht key hfl hp (realCtx_inIdx tx i hwf) hk hs
+    (real_hash160_length tx i) hne
+  rw [show (realCtx tx (i : Int)).env.hashes = realHashes from rfl] at e
+  rw [e, realSigCheck_eq_spec tx i body key _ _ (parses_p2pk key (by omega)) hl hwf ht.toNat_lt]
+
+theorem p2sh_p2pkh_verify_real (body : Bytes) (ht : UInt8) (key : Bytes)
+    (hfl : fl.admissible = true) (hp : fl.p2sh = true) (hwf : FieldsWF tx) (hk : key.length < 0x4c)
+    (hs : body.length + 1 < 0x4c) (hne : body.length + 1 ≠ 20) :
+    let redeem := p2pkhScript (realHashes.hash160 key)
+    verifyScript (realCtx tx (i : Int)) fl (p2shScriptSig (p2pkhScriptSig (body ++ [ht]) key) redeem)
+        (p2shScript (realHashes.hash160 redeem)) =
+      if ecdsaCheck body key (legacySighash redeem tx i ht.toNat).1 then .ok () else .error .verify := by
+  intro redeem
+  have hh := realHashes_hash160_length key
+  have hl : redeem.length < 2 ^ 64 := by simp [redeem, p2pkhScript, pushData, hh]
+  have e := p2sh_p2pkh_verify (realCtx tx (i : Int)) fl body ht key hfl hp (realCtx_inIdx tx i hwf) hk hs
+    (real_hash160_length tx i) hne
+  rw [show (realCtx tx (i : Int)).env.hashes = realHashes from rfl] at e
+  rw [e, realSigCheck_eq_spec tx i body key _ _ (parses_p2pkh _ (by omega)) hl hwf ht.toNat_lt]
+
+theorem p2sh_multisig_verify_real (m : Nat) (keys sigs : List Bytes)
+    (hfl : fl.admissible = true) (hp : fl.p2sh = true) (hwf : FieldsWF tx) (hm1 : 1 ≤ m) (hmn : m ≤ keys.length)
+    (hn : keys.length ≤ 20) (hsl : sigs.length = m)
+    (hk : ∀ k ∈ keys, k.length < 0x4c) (hs : ∀ s ∈ sigs, s.length < 0x4c) (hs1 : ∀ s ∈ sigs, s.length ≠ 1)
+    (hne : ∀ s ∈ sigs, ∀ k ∈ keys, s.length ≠ k.length) (hrl : (multisigScript m keys).length ≤ 520) :
+    let redeem := multisigScript m keys
+    let chk := chkSig (txEnv realHashes ecdsaCheck tx i) redeem
+    let spend := verifyScript (realCtx tx (i : Int)) fl (p2shScriptSig (multisigScriptSig sigs) redeem)
+      (p2shScript (realHashes.hash160 redeem))
+    (Matching chk sigs keys → spend = .ok ()) ∧ (¬ Matching chk sigs keys → spend = .error .verify) := by
+  intro redeem chk spend
+  have hchk : chkSig (realCtx tx (i : Int)).env redeem = chk := by
+    funext s k
+    exact real_chkSig tx i _ s k (parses_multisig m keys hk) (by show (multisigScript m keys).length < 2 ^ 64; omega) hwf
+  have := p2sh_multisig_verify (realCtx tx (i : Int)) fl m keys sigs hfl hp (realCtx_inIdx tx i hwf) hm1 hmn hn hsl hk hs
+    hs1 hne hrl (real_hash160_length tx i)
+  simp only at this
+  rw [show (realCtx tx (i : Int)).env.hashes = realHashes from rfl, hchk] at this
+  exact this
+
+end real
+
+
+
+section realedits
+open BtcVerif.Model.ScriptEval BtcVerif.Spec.Script BtcVerif.Spec.Templates BtcVerif.C05T
+open BtcVerif.Model.ScriptEval.Real
+
+/-! ### Part 3 for the real environment
+
+  On every template the verdict in the real context equals the verdict in the reference context
+  `txCtx realHashes ecdsaCheck tx i` (`*_real_eq_reference`), so the verdict-under-edit theorems of
+  Part 3 hold for the model of the library verbatim (`ecdsa := Real.ecdsaCheck`). -/
+
+variable (tx : Tx) (i : Nat) (e : Edit) (fl : Flags)
+
+theorem fieldsWF_of_WFc {t : Tx} (h : WFc t) : FieldsWF t := by
+  obtain ⟨a, b, c, d, e, f, g⟩ := h
+  refine ⟨a, b, c, d, e, ?_, g⟩
+  intro o ho
+  obtain ⟨h1, h2, h3⟩ := f o ho
+  exact ⟨h1, h2, by unfold maxSize at h3; omega⟩
+
+theorem p2pk_real_eq_reference (body : Bytes) (ht : UInt8) (key : Bytes)
+    (hfl : fl.admissible = true) (hwf : FieldsWF tx) (hk : key.length < 0x4c) (hs : body.length + 1 < 0x4c)
+    (hne : body.length + 1 ≠ key.length) :
+    verifyScript (realCtx tx (i : Int)) fl (p2pkScriptSig (body ++ [ht])) (p2pkScript key) =
+      verifyScript (txCtx realHashes ecdsaCheck tx i) fl (p2pkScriptSig (body ++ [ht])) (p2pkScript key) := by
+  rw [p2pk_verify_real tx i fl body ht key hfl hwf hk hs hne,
+    p2pk_verify _ fl body ht key hfl (txCtx_inIdx ..) hk hs hne]
+  rfl
+
+theorem p2pkh_real_eq_reference (body : Bytes) (ht : UInt8) (key : Bytes)
+    (hfl : fl.admissible = true) (hwf : FieldsWF tx) (hk : key.length < 0x4c) (hs : body.length + 1 < 0x4c)
+    (hne : body.length + 1 ≠ 20) :
+    verifyScript (realCtx tx (i : Int)) fl (p2pkhScriptSig (body ++ [ht]) key) (p2pkhScript (realHashes.hash160 key)) =
+      verifyScript (txCtx realHashes ecdsaCheck tx i) fl (p2pkhScriptSig (body ++ [ht]) key)
+        (p2pkhScript (realHashes.hash160 key)) := by
+  have e2 := p2pkh_verify (txCtx realHashes ecdsaCheck tx i) fl body ht key hfl (txCtx_inIdx ..) hk hs
+    (realHashes_hash160_length key) hne
+  rw [show (txCtx realHashes ecdsaCheck tx i).env.hashes.hash160 key = realHashes.hash160 key from rfl] at e2
+  rw [p2pkh_verify_real tx i fl body ht key hfl hwf hk hs hne, e2]
+  rfl
+
+theorem multisig_real_eq_reference (m : Nat) (keys sigs : List Bytes)
+    (hfl : fl.admissible = true) (hwf : FieldsWF tx) (hm1 : 1 ≤ m) (hmn : m ≤ keys.length)
+    (hn : keys.length ≤ 20) (hsl : sigs.length = m)
+    (hk : ∀ k ∈ keys, k.length < 0x4c) (hs : ∀ s ∈ sigs, s.length < 0x4c) (hs1 : ∀ s ∈ sigs, s.length ≠ 1)
+    (hne : ∀ s ∈ sigs, ∀ k ∈ keys, s.length ≠ k.length) :
+    verifyScript (realCtx tx (i : Int)) fl (multisigScriptSig sigs) (multisigScript m keys) =
+      verifyScript (txCtx realHashes ecdsaCheck tx i) fl (multisigScriptSig sigs) (multisigScript m keys) := by
+  have hl : (multisigScript m keys).length < 2 ^ 64 := by
+    have := multisig_length_le m keys hk; omega
+  rw [verify_multisig _ fl m keys sigs hfl (realCtx_inIdx tx i hwf) hm1 hmn hn hsl hk hs hs1 hne,
+    verify_multisig _ fl m keys sigs hfl (txCtx_inIdx ..) hm1 hmn hn hsl hk hs hs1 hne]
+  have : chkSig (realCtx tx (i : Int)).env (multisigScript m keys) =
+      chkSig (txCtx realHashes ecdsaCheck tx i).env (multisigScript m keys) := by
+    funext s k
+    exact real_chkSig tx i _ s k (parses_multisig m keys hk) hl hwf
+  rw [this]
+
+theorem p2sh_p2pk_real_eq_reference (body : Bytes) (ht : UInt8) (key : Bytes)
+    (hfl : fl.admissible = true) (hp : fl.p2sh = true) (hwf : FieldsWF tx) (hk : key.length + 2 < 0x4c)
+    (hs : body.length + 1 < 0x4c) (hne : body.length + 1 ≠ key.length) :
+    verifyScript (realCtx tx (i : Int)) fl (p2shScriptSig (p2pkScriptSig (body ++ [ht])) (p2pkScript key))
+        (p2shScript (realHashes.hash160 (p2pkScript key))) =
+      verifyScript (txCtx realHashes ecdsaCheck tx i) fl (p2shScriptSig (p2pkScriptSig (body ++ [ht])) (p2pkScript key))
+        (p2shScript (realHashes.hash160 (p2pkScript key))) := by
+  have e2 := p2sh_p2pk_verify (txCtx realHashes ecdsaCheck tx i) fl body ht key hfl hp (txCtx_inIdx ..) hk hs
+    realHashes_hash160_length hne
+  rw [show (txCtx realHashes ecdsaCheck tx i).env.hashes = realHashes from rfl] at e2
+  rw [p2sh_p2pk_verify_real tx i fl body ht key hfl hp hwf hk hs hne, e2]
+  rfl
+
+theorem p2sh_p2pkh_real_eq_reference (body : Bytes) (ht : UInt8) (key : Bytes)
+    (hfl : fl.admissible = true) (hp : fl.p2sh = true) (hwf : FieldsWF tx) (hk : key.length < 0x4c)
+    (hs : body.length + 1 < 0x4c) (hne : body.length + 1 ≠ 20) :
+    let redeem := p2pkhScript (realHashes.hash160 key)
+    verifyScript (realCtx tx (i : Int)) fl (p2shScriptSig (p2pkhScriptSig (body ++ [ht]) key) redeem)
+        (p2shScript (realHashes.hash160 redeem)) =
+      verifyScript (txCtx realHashes ecdsaCheck tx i) fl (p2shScriptSig (p2pkhScriptSig (body ++ [ht]) key) redeem)
+        (p2shScript (realHashes.hash160 redeem)) := by
+  intro redeem
+  have e1 := p2sh_p2pkh_verify_real tx i fl body ht key hfl hp hwf hk hs hne
+  have e2 := p2sh_p2pkh_verify (txCtx realHashes ecdsaCheck tx i) fl body ht key hfl hp (txCtx_inIdx ..) hk hs
+    realHashes_hash160_length hne
+  rw [show (txCtx realHashes ecdsaCheck tx i).env.hashes = realHashes from rfl] at e2
+  simp only at e1
+  rw [e1, e2]
+  rfl
+
+theorem p2sh_multisig_real_eq_reference (m : Nat) (keys sigs : List Bytes)
+    (hfl : fl.admissible = true) (hp : fl.p2sh = true) (hwf : FieldsWF tx) (hm1 : 1 ≤ m) (hmn : m ≤ keys.length)
+    (hn : keys.length ≤ 20) (hsl : sigs.length = m)
+    (hk : ∀ k ∈ keys, k.length < 0x4c) (hs : ∀ s ∈ sigs, s.length < 0x4c) (hs1 : ∀ s ∈ sigs, s.length ≠ 1)
+    (hne : ∀ s ∈ sigs, ∀ k ∈ keys, s.length ≠ k.length) (hrl : (multisigScript m keys).length ≤ 520) :
+    let redeem := multisigScript m keys
+    verifyScript (realCtx tx (i : Int)) fl (p2shScriptSig (multisigScriptSig sigs) redeem)
+        (p2shScript (realHashes.hash160 redeem)) =
+      verifyScript (txCtx realHashes ecdsaCheck tx i) fl (p2shScriptSig (multisigScriptSig sigs) redeem)
+        (p2shScript (realHashes.hash160 redeem)) := by
+  intro redeem
+  have e1 := verify_p2sh_multisig (realCtx tx (i : Int)) fl m keys sigs hfl hp (realCtx_inIdx tx i hwf)
+    hm1 hmn hn hsl hk hs hs1 hne hrl (real_hash160_length tx i)
+  have e2 := verify_p2sh_multisig (txCtx realHashes ecdsaCheck tx i) fl m keys sigs hfl hp (txCtx_inIdx ..)
+    hm1 hmn hn hsl hk hs hs1 hne hrl realHashes_hash160_length
+  simp only at e1 e2
+  rw [show (realCtx tx (i : Int)).env.hashes = realHashes from rfl] at e1
+  rw [show (txCtx realHashes ecdsaCheck tx i).env.hashes = realHashes from rfl] at e2
+  show verifyScript _ fl (multisigScriptSig sigs ++ pushEnc (multisigScript m keys)) _ =
+    verifyScript _ fl (multisigScriptSig sigs ++ pushEnc (multisigScript m keys)) _
+  rw [e1, e2]
+  have : chkSig (realCtx tx (i : Int)).env (multisigScript m keys) =
+      chkSig (txCtx realHashes ecdsaCheck tx i).env (multisigScript m keys) := by
+    funext s k
+    exact real_chkSig tx i _ s k (parses_multisig m keys hk) (by omega) hwf
+  rw [this]
+
+/-! uncommitted edits, real environment (wire range before and after the edit) -/
+
+theorem p2pk_uncommitted_edit_same_verdict_real (body : Bytes) (ht : UInt8) (key : Bytes)
+    (hfl : fl.admissible = true) (hwf : FieldsWF tx) (hwf' : FieldsWF (apply e tx))
+    (hk : key.length < 0x4c) (hs : body.length + 1 < 0x4c) (hne : body.length + 1 ≠ key.length)
+    (hU : Uncommitted ht.toNat i e = true) :
+    verifyScript (realCtx (apply e tx) (i : Int)) fl (p2pkScriptSig (body ++ [ht])) (p2pkScript key) =
+      verifyScript (realCtx tx (i : Int)) fl (p2pkScriptSig (body ++ [ht])) (p2pkScript key) := by
+  rw [p2pk_real_eq_reference _ i fl body ht key hfl hwf' hk hs hne,
+    p2pk_real_eq_reference _ i fl body ht key hfl hwf hk hs hne]
+  exact p2pk_uncommitted_edit_same_verdict realHashes ecdsaCheck tx i e fl body ht key hfl hk hs hne hU
+
+theorem p2pkh_uncommitted_edit_same_verdict_real (body : Bytes) (ht : UInt8) (key : Bytes)
+    (hfl : fl.admissible = true) (hwf : FieldsWF tx) (hwf' : FieldsWF (apply e tx))
+    (hk : key.length < 0x4c) (hs : body.length + 1 < 0x4c) (hne : body.length + 1 ≠ 20)
+    (hU : Uncommitted ht.toNat i e = true) :
+    verifyScript (realCtx (apply e tx) (i : Int)) fl (p2pkhScriptSig (body ++ [ht]) key)
+        (p2pkhScript (realHashes.hash160 key)) =
+      verifyScript (realCtx tx (i : Int)) fl (p2pkhScriptSig (body ++ [ht]) key)
+        (p2pkhScript (realHashes.hash160 key)) := by
+  rw [p2pkh_real_eq_reference _ i fl body ht key hfl hwf' hk hs hne,
+    p2pkh_real_eq_reference _ i fl body ht key hfl hwf hk hs hne]
+  exact p2pkh_uncommitted_edit_same_verdict realHashes ecdsaCheck tx i e fl body ht key hfl hk hs
+    (realHashes_hash160_length key) hne hU
+
+theorem multisig_uncommitted_edit_same_verdict_real (m : Nat) (keys sigs : List Bytes)
+    (hfl : fl.admissible = true) (hwf : FieldsWF tx) (hwf' : FieldsWF (apply e tx))
+    (hm1 : 1 ≤ m) (hmn : m ≤ keys.length) (hn : keys.length ≤ 20)
+    (hsl : sigs.length = m) (hk : ∀ k ∈ keys, k.length < 0x4c) (hs : ∀ s ∈ sigs, s.length < 0x4c)
+    (hs1 : ∀ s ∈ sigs, s.length ≠ 1) (hne : ∀ s ∈ sigs, ∀ k ∈ keys, s.length ≠ k.length)
+    (hU : ∀ s ∈ sigs, ∀ ht, s.getLast? = some ht → Uncommitted ht.toNat i e = true) :
+    verifyScript (realCtx (apply e tx) (i : Int)) fl (multisigScriptSig sigs) (multisigScript m keys) =
+      verifyScript (realCtx tx (i : Int)) fl (multisigScriptSig sigs) (multisigScript m keys) := by
+  rw [multisig_real_eq_reference _ i fl m keys sigs hfl hwf' hm1 hmn hn hsl hk hs hs1 hne,
+    multisig_real_eq_reference _ i fl m keys sigs hfl hwf hm1 hmn hn hsl hk hs hs1 hne]
+  exact multisig_uncommitted_edit_same_verdict realHashes ecdsaCheck tx i e fl m keys sigs hfl hm1 hmn hn hsl hk hs
+    hs1 hne hU
+
+theorem p2sh_p2pk_uncommitted_edit_same_verdict_real (body : Bytes) (ht : UInt8) (key : Bytes)
+    (hfl : fl.admissible = true) (hp : fl.p2sh = true) (hwf : FieldsWF tx) (hwf' : FieldsWF (apply e tx))
+    (hk : key.length + 2 < 0x4c) (hs : body.length + 1 < 0x4c) (hne : body.length + 1 ≠ key.length)
+    (hU : Uncommitted ht.toNat i e = true) :
+    verifyScript (realCtx (apply e tx) (i : Int)) fl
+        (p2shScriptSig (p2pkScriptSig (body ++ [ht])) (p2pkScript key)) (p2shScript (realHashes.hash160 (p2pkScript key))) =
+      verifyScript (realCtx tx (i : Int)) fl
+        (p2shScriptSig (p2pkScriptSig (body ++ [ht])) (p2pkScript key)) (p2shScript (realHashes.hash160 (p2pkScript key))) := by
+  rw [p2sh_p2pk_real_eq_reference _ i fl body ht key hfl hp hwf' hk hs hne,
+    p2sh_p2pk_real_eq_reference _ i fl body ht key hfl hp hwf hk hs hne]
+  exact p2sh_p2pk_uncommitted_edit_same_verdict realHashes ecdsaCheck tx i e fl body ht key hfl hp hk hs
+    realHashes_hash160_length hne hU
+
+theorem p2sh_p2pkh_uncommitted_edit_same_verdict_real (body : Bytes) (ht : UInt8) (key : Bytes)
+    (hfl : fl.admissible = true) (hp : fl.p2sh = true) (hwf : FieldsWF tx) (hwf' : FieldsWF (apply e tx))
+    (hk : key.length < 0x4c) (hs : body.length + 1 < 0x4c) (hne : body.length + 1 ≠ 20)
+    (hU : Uncommitted ht.toNat i e = true) :
+    let redeem := p2pkhScript (realHashes.hash160 key)
+    verifyScript (realCtx (apply e tx) (i : Int)) fl (p2shScriptSig (p2pkhScriptSig (body ++ [ht]) key) redeem)
+        (p2shScript (realHashes.hash160 redeem)) =
+      verifyScript (realCtx tx (i : Int)) fl (p2shScriptSig (p2pkhScriptSig (body ++ [ht]) key) redeem)
+        (p2shScript (realHashes.hash160 redeem)) := by
+  intro redeem
+  have a := p2sh_p2pkh_real_eq_reference (apply e tx) i fl body ht key hfl hp hwf' hk hs hne
+  have b := p2sh_p2pkh_real_eq_reference tx i fl body ht key hfl hp hwf hk hs hne
+  simp only at a b
+  rw [a, b]
+  exact p2sh_p2pkh_uncommitted_edit_same_verdict realHashes ecdsaCheck tx i e fl body ht key hfl hp hk hs
+    realHashes_hash160_length hne hU
+
+theorem p2sh_multisig_uncommitted_edit_same_verdict_real (m : Nat) (keys sigs : List Bytes)
+    (hfl : fl.admissible = true) (hp : fl.p2sh = true) (hwf : FieldsWF tx) (hwf' : FieldsWF (apply e tx))
+    (hm1 : 1 ≤ m) (hmn : m ≤ keys.length) (hn : keys.length ≤ 20) (hsl : sigs.length = m)
+    (hk : ∀ k ∈ keys, k.length < 0x4c) (hs : ∀ s ∈ sigs, s.length < 0x4c) (hs1 : ∀ s ∈ sigs, s.length ≠ 1)
+    (hne : ∀ s ∈ sigs, ∀ k ∈ keys, s.length ≠ k.length) (hrl : (multisigScript m keys).length ≤ 520)
+    (hU : ∀ s ∈ sigs, ∀ ht, s.getLast? = some ht → Uncommitted ht.toNat i e = true) :
+    let redeem := multisigScript m keys
+    verifyScript (realCtx (apply e tx) (i : Int)) fl (p2shScriptSig (multisigScriptSig sigs) redeem)
+        (p2shScript (realHashes.hash160 redeem)) =
+      verifyScript (realCtx tx (i : Int)) fl (p2shScriptSig (multisigScriptSig sigs) redeem)
+        (p2shScript (realHashes.hash160 redeem)) := by
+  intro redeem
+  have a := p2sh_multisig_real_eq_reference (apply e tx) i fl m keys sigs hfl hp hwf' hm1 hmn hn hsl hk hs hs1 hne hrl
+  have b := p2sh_multisig_real_eq_reference tx i fl m keys sigs hfl hp hwf hm1 hmn hn hsl hk hs hs1 hne hrl
+  simp only at a b
+  rw [a, b]
+  exact p2sh_multisig_uncommitted_edit_same_verdict realHashes ecdsaCheck tx i e fl m keys sigs hfl hp hm1 hmn hn hsl
+    hk hs hs1 hne hrl realHashes_hash160_length hU
+
+/-! committed edits, real environment: `hunf` now speaks about the real verifier `Real.ecdsaCheck` -/
+
+theorem p2pk_committed_edit_rejects_real (body : Bytes) (ht : UInt8) (key : Bytes)
+    (hfl : fl.admissible = true) (hk : key.length < 0x4c) (hs : body.length + 1 < 0x4c)
+    (hne : body.length + 1 ≠ key.length)
+    (hC : Committed ht.toNat i e = true) (hch : changes ht.toNat i e tx)
+    (wf : WFc tx) (wf' : WFc (apply e tx)) (hr : Regular ht.toNat i tx) (hr' : Regular ht.toNat i (apply e tx))
+    (hcr : Crypto.hash256 (legacyPreimage (p2pkScript key) (apply e tx) i ht.toNat) =
+             Crypto.hash256 (legacyPreimage (p2pkScript key) tx i ht.toNat) →
+           legacyPreimage (p2pkScript key) (apply e tx) i ht.toNat = legacyPreimage (p2pkScript key) tx i ht.toNat)
+    (hunf : (legacySighash (p2pkScript key) (apply e tx) i ht.toNat).1 ≠ (legacySighash (p2pkScript key) tx i ht.toNat).1 →
+      ecdsaCheck body key (legacySighash (p2pkScript key) (apply e tx) i ht.toNat).1 = false) :
+    verifyScript (realCtx (apply e tx) (i : Int)) fl (p2pkScriptSig (body ++ [ht])) (p2pkScript key) =
+      .error .verify := by
+  rw [p2pk_real_eq_reference _ i fl body ht key hfl (fieldsWF_of_WFc wf') hk hs hne]
+  exact p2pk_committed_edit_rejects realHashes ecdsaCheck tx i e fl body ht key hfl hk hs hne hC hch wf wf' hr hr'
+    hcr hunf
+
+theorem p2pkh_committed_edit_rejects_real (body : Bytes) (ht : UInt8) (key : Bytes)
+    (hfl : fl.admissible = true) (hk : key.length < 0x4c) (hs : body.length + 1 < 0x4c) (hne : body.length + 1 ≠ 20)
+    (hC : Committed ht.toNat i e = true) (hch : changes ht.toNat i e tx)
+    (wf : WFc tx) (wf' : WFc (apply e tx)) (hr : Regular ht.toNat i tx) (hr' : Regular ht.toNat i (apply e tx))
+    (hcr : Crypto.hash256 (legacyPreimage (p2pkhScript (realHashes.hash160 key)) (apply e tx) i ht.toNat) =
+             Crypto.hash256 (legacyPreimage (p2pkhScript (realHashes.hash160 key)) tx i ht.toNat) →
+           legacyPreimage (p2pkhScript (realHashes.hash160 key)) (apply e tx) i ht.toNat =
+             legacyPreimage (p2pkhScript (realHashes.hash160 key)) tx i ht.toNat)
+    (hunf : (legacySighash (p2pkhScript (realHashes.hash160 key)) (apply e tx) i ht.toNat).1 ≠
+        (legacySighash (p2pkhScript (realHashes.hash160 key)) tx i ht.toNat).1 →
+      ecdsaCheck body key (legacySighash (p2pkhScript (realHashes.hash160 key)) (apply e tx) i ht.toNat).1 = false) :
+    verifyScript (realCtx (apply e tx) (i : Int)) fl (p2pkhScriptSig (body ++ [ht]) key)
+        (p2pkhScript (realHashes.hash160 key)) = .error .verify := by
+  rw [p2pkh_real_eq_reference _ i fl body ht key hfl (fieldsWF_of_WFc wf') hk hs hne]
+  exact p2pkh_committed_edit_rejects realHashes ecdsaCheck tx i e fl body ht key hfl hk hs
+    (realHashes_hash160_length key) hne hC hch wf wf' hr hr' hcr hunf
+
+theorem multisig_committed_edit_rejects_real (m : Nat) (keys sigs : List Bytes)
+    (hfl : fl.admissible = true) (hm1 : 1 ≤ m) (hmn : m ≤ keys.length) (hn : keys.length ≤ 20)
+    (hsl : sigs.length = m) (hk : ∀ k ∈ keys, k.length < 0x4c) (hs : ∀ s ∈ sigs, s.length < 0x4c)
+    (hs1 : ∀ s ∈ sigs, s.length ≠ 1) (hne : ∀ s ∈ sigs, ∀ k ∈ keys, s.length ≠ k.length)
+    (wf : WFc tx) (wf' : WFc (apply e tx))
+    (hB : ∀ s ∈ sigs, ∀ ht, s.getLast? = some ht →
+      Committed ht.toNat i e = true ∧ changes ht.toNat i e tx ∧ Regular ht.toNat i tx ∧
+      Regular ht.toNat i (apply e tx) ∧
+      (Crypto.hash256 (legacyPreimage (multisigScript m keys) (apply e tx) i ht.toNat) =
+          Crypto.hash256 (legacyPreimage (multisigScript m keys) tx i ht.toNat) →
+        legacyPreimage (multisigScript m keys) (apply e tx) i ht.toNat =
+          legacyPreimage (multisigScript m keys) tx i ht.toNat) ∧
+      (∀ k ∈ keys, (legacySighash (multisigScript m keys) (apply e tx) i ht.toNat).1 ≠
+          (legacySighash (multisigScript m keys) tx i ht.toNat).1 →
+        ecdsaCheck s.dropLast k (legacySighash (multisigScript m keys) (apply e tx) i ht.toNat).1 = false)) :
+    verifyScript (realCtx (apply e tx) (i : Int)) fl (multisigScriptSig sigs) (multisigScript m keys) =
+      .error .verify := by
+  rw [multisig_real_eq_reference _ i fl m keys sigs hfl (fieldsWF_of_WFc wf') hm1 hmn hn hsl hk hs hs1 hne]
+  exact multisig_committed_edit_rejects realHashes ecdsaCheck tx i e fl m keys sigs hfl hm1 hmn hn hsl hk hs hs1 hne
+    wf wf' hB
+
+theorem p2sh_p2pk_committed_edit_rejects_real (body : Bytes) (ht : UInt8) (key : Bytes)
+    (hfl : fl.admissible = true) (hp : fl.p2sh = true) (hk : key.length + 2 < 0x4c) (hs : body.length + 1 < 0x4c)
+    (hne : body.length + 1 ≠ key.length)
+    (hC : Committed ht.toNat i e = true) (hch : changes ht.toNat i e tx)
+    (wf : WFc tx) (wf' : WFc (apply e tx)) (hr : Regular ht.toNat i tx) (hr' : Regular ht.toNat i (apply e tx))
+    (hcr : Crypto.hash256 (legacyPreimage (p2pkScript key) (apply e tx) i ht.toNat) =
+             Crypto.hash256 (legacyPreimage (p2pkScript key) tx i ht.toNat) →
+           legacyPreimage (p2pkScript key) (apply e tx) i ht.toNat = legacyPreimage (p2pkScript key) tx i ht.toNat)
+    (hunf : (legacySighash (p2pkScript key) (apply e tx) i ht.toNat).1 ≠ (legacySighash (p2pkScript key) tx i ht.toNat).1 →
+      ecdsaCheck body key (legacySighash (p2pkScript key) (apply e tx) i ht.toNat).1 = false) :
+    verifyScript (realCtx (apply e tx) (i : Int)) fl
+        (p2shScriptSig (p2pkScriptSig (body ++ [ht])) (p2pkScript key)) (p2shScript (realHashes.hash160 (p2pkScript key))) =
+      .error .verify := by
+  rw [p2sh_p2pk_real_eq_reference _ i fl body ht key hfl hp (fieldsWF_of_WFc wf') hk hs hne]
+  exact p2sh_p2pk_committed_edit_rejects realHashes ecdsaCheck tx i e fl body ht key hfl hp hk hs
+    realHashes_hash160_length hne hC hch wf wf' hr hr' hcr hunf
+
+theorem p2sh_p2pkh_committed_edit_rejects_real (body : Bytes) (ht : UInt8) (key : Bytes)
+    (hfl : fl.admissible = true) (hp : fl.p2sh = true) (hk : key.length < 0x4c) (hs : body.length + 1 < 0x4c)
+    (hne : body.length + 1 ≠ 20)
+    (hC : Committed ht.toNat i e = true) (hch : changes ht.toNat i e tx)
+    (wf : WFc tx) (wf' : WFc (apply e tx)) (hr : Regular ht.toNat i tx) (hr' : Regular ht.toNat i (apply e tx))
+    (hcr : Crypto.hash256 (legacyPreimage (p2pkhScript (realHashes.hash160 key)) (apply e tx) i ht.toNat) =
+             Crypto.hash256 (legacyPreimage (p2pkhScript (realHashes.hash160 key)) tx i ht.toNat) →
+           legacyPreimage (p2pkhScript (realHashes.hash160 key)) (apply e tx) i ht.toNat =
+             legacyPreimage (p2pkhScript (realHashes.hash160 key)) tx i ht.toNat)
+    (hunf : (legacySighash (p2pkhScript (realHashes.hash160 key)) (apply e tx) i ht.toNat).1 ≠
+        (legacySighash (p2pkhScript (realHashes.hash160 key)) tx i ht.toNat).1 →
+      ecdsaCheck body key (legacySighash (p2pkhScript (realHashes.hash160 key)) (apply e tx) i ht.toNat).1 = false) :
+    let redeem := p2pkhScript (realHashes.hash160 key)
+    verifyScript (realCtx (apply e tx) (i : Int)) fl (p2shScriptSig (p2pkhScriptSig (body ++ [ht]) key) redeem)
+        (p2shScript (realHashes.hash160 redeem)) = .error .verify := by
+  intro redeem
+  have a := p2sh_p2pkh_real_eq_reference (apply e tx) i fl body ht key hfl hp (fieldsWF_of_WFc wf') hk hs hne
+  simp only at a
+  rw [a]
+  exact p2sh_p2pkh_committed_edit_rejects realHashes ecdsaCheck tx i e fl body ht key hfl hp hk hs
+    realHashes_hash160_length hne hC hch wf wf' hr hr' hcr hunf
+
+theorem p2sh_multisig_committed_edit_rejects_real (m : Nat) (keys sigs : List Bytes)
+    (hfl : fl.admissible = true) (hp : fl.p2sh = true) (hm1 : 1 ≤ m) (hmn : m ≤ keys.length)
+    (hn : keys.length ≤ 20) (hsl : sigs.length = m) (hk : ∀ k ∈ keys, k.length < 0x4c)
+    (hs : ∀ s ∈ sigs, s.length < 0x4c) (hs1 : ∀ s ∈ sigs, s.length ≠ 1)
+    (hne : ∀ s ∈ sigs, ∀ k ∈ keys, s.length ≠ k.length) (hrl : (multisigScript m keys).length ≤ 520)
+    (wf : WFc tx) (wf' : WFc (apply e tx))
+    (hB : ∀ s ∈ sigs, ∀ ht, s.getLast? = some ht →
+      Committed ht.toNat i e = true ∧ changes ht.toNat i e tx ∧ Regular ht.toNat i tx ∧
+      Regular ht.toNat i (apply e tx) ∧
+      (Crypto.hash256 (legacyPreimage (multisigScript m keys) (apply e tx) i ht.toNat) =
+          Crypto.hash256 (legacyPreimage (multisigScript m keys) tx i ht.toNat) →
+        legacyPreimage (multisigScript m keys) (apply e tx) i ht.toNat =
+          legacyPreimage (multisigScript m keys) tx i ht.toNat) ∧
+      (∀ k ∈ keys, (legacySighash (multisigScript m keys) (apply e tx) i ht.toNat).1 ≠
+          (legacySighash (multisigScript m keys) tx i ht.toNat).1 →
+        ecdsaCheck s.dropLast k (legacySighash (multisigScript m keys) (apply e tx) i ht.toNat).1 = false)) :
+    let redeem := multisigScript m keys
+    verifyScript (realCtx (apply e tx) (i : Int)) fl (p2shScriptSig (multisigScriptSig sigs) redeem)
+        (p2shScript (realHashes.hash160 redeem)) = .error .verify := by
+  intro redeem
+  have a := p2sh_multisig_real_eq_reference (apply e tx) i fl m keys sigs hfl hp (fieldsWF_of_WFc wf') hm1 hmn hn hsl
+    hk hs hs1 hne hrl
+  simp only at a
+  rw [a]
+  exact p2sh_multisig_committed_edit_rejects realHashes ecdsaCheck tx i e fl m keys sigs hfl hp hm1 hmn hn hsl hk hs
+    hs1 hne hrl realHashes_hash160_length wf wf' hB
+
+end realedits
 
 /-! ### non-vacuity of Parts 2 and 3 -/
 
@@ -772,7 +1263,7 @@ def exEnv : Env :=
     sigCheck := fun body key _ _ => body[1]? == key[1]? }
 def exCtx : Ctx :=
   { hashes := exEnv.hashes, sigHash := fun _ _ => .ok [], sigVerify := fun body key _ => body[1]? == key[1]? }
-theorem exCtx_total : exCtx.SigTotal := ⟨fun _ _ _ => ⟨_, rfl⟩⟩
+theorem exCtx_total : exCtx.SigTotal := ⟨fun _ _ _ _ _ => ⟨_, rfl⟩⟩
 /-- lets the `by decide` of the examples below discharge the `SigTotal` hypothesis -/
 instance : Decidable exCtx.SigTotal := isTrue exCtx_total
 def exKey (j : UInt8) : Bytes := 2 :: List.replicate 32 j
@@ -820,5 +1311,107 @@ example : Committed (0x83 : UInt8).toNat 1 (.setValue 1 5) = true ∧ changes (0
   ⟨by decide, ⟨.value 1, by decide, by decide⟩, by decide, by decide⟩
 
 end examples
+
+
+/-! ### non-vacuity of Part 3: a toy signature scheme on a concrete transaction
+
+  `toySig key d` "signs" the digest `d` by writing it down behind a tag of the key; `toyEcdsa` accepts
+  exactly that string.  (For this toy scheme a signature IS valid for one digest only — the property
+  that real ECDSA lacks, see the header of Part 3 — which is why `hunf` can be proved outright here.)
+  SHA-256d is not evaluated by the kernel, so the one thing that stays a hypothesis of the example is
+  `hcr` for the two concrete messages (true when evaluated by the compiled code; not provable in the
+  kernel). -/
+
+section toy
+open BtcVerif.Model.ScriptEval BtcVerif.Spec.Script BtcVerif.Spec.Templates BtcVerif.C05T
+
+def toySig (key d : Bytes) : Bytes := 0x30 :: (key.take 8 ++ d)
+def toyEcdsa (sig key d : Bytes) : Bool := decide (sig = toySig key d)
+def toyCtx (t : Tx) : Ctx := txCtx exEnv.hashes toyEcdsa t 1
+
+/-- the digest input 1 of `exTx` signs for pay-to-pubkey to `exKey 5` under SINGLE|ANYONECANPAY -/
+def exDigest (t : Tx) : Bytes := (legacySighash (p2pkScript (exKey 5)) t 1 (0x83 : UInt8).toNat).1
+
+theorem exDigest_length (t : Tx) (h : Regular (0x83 : UInt8).toNat 1 t) : (exDigest t).length = 32 := by
+  unfold exDigest
+  rw [regular_sighash _ _ _ _ h]
+  exact Crypto.hash256_length _
+
+theorem exKey_take (j : UInt8) : (exKey j).take 8 = [2, j, j, j, j, j, j, j] := rfl
+
+theorem toySig_size (j : UInt8) (t : Tx) (h : Regular (0x83 : UInt8).toNat 1 t) :
+    (toySig (exKey j) (exDigest t)).length + 1 < 0x4c ∧ (toySig (exKey j) (exDigest t)).length + 1 ≠ (exKey 5).length := by
+  simp [toySig, exDigest_length t h, exKey]
+
+/-- ACCEPTS: the input signed by the toy signer is accepted (`template_accepts_p2pk`, all hypotheses met) -/
+example : verifyScript (toyCtx exTx) exFlags (p2pkScriptSig (toySig (exKey 5) (exDigest exTx) ++ [0x83]))
+    (p2pkScript (exKey 5)) = .ok () :=
+  template_accepts_p2pk (toyCtx exTx) exFlags _ 0x83 (exKey 5) (by decide) (txCtx_inIdx ..) (by decide)
+    (toySig_size 5 exTx (by decide)).1 (toySig_size 5 exTx (by decide)).2
+    (by simp [toyCtx, txCtx, Ctx.env, toyEcdsa, exDigest])
+
+/-- REJECTS, wrong key: the same digest signed by key 6 does not spend an output of key 5 -/
+example : verifyScript (toyCtx exTx) exFlags (p2pkScriptSig (toySig (exKey 6) (exDigest exTx) ++ [0x83]))
+    (p2pkScript (exKey 5)) = .error .verify :=
+  template_rejects_wrong_key_p2pk (toyCtx exTx) exFlags _ 0x83 (exKey 5) (by decide) (txCtx_inIdx ..) (by decide)
+    (toySig_size 6 exTx (by decide)).1 (toySig_size 6 exTx (by decide)).2
+    (by simp [toyCtx, txCtx, Ctx.env, toyEcdsa, toySig, exKey_take])
+
+/-- UNCOMMITTED edit: output 0 is not committed under SINGLE|ANYONECANPAY at input 1 — still accepted -/
+example : verifyScript (toyCtx (apply (.setValue 0 5) exTx)) exFlags
+    (p2pkScriptSig (toySig (exKey 5) (exDigest exTx) ++ [0x83])) (p2pkScript (exKey 5)) = .ok () := by
+  have h := p2pk_uncommitted_edit_same_verdict exEnv.hashes toyEcdsa exTx 1 (.setValue 0 5) exFlags
+    (toySig (exKey 5) (exDigest exTx)) 0x83 (exKey 5) (by decide) (by decide)
+    (toySig_size 5 exTx (by decide)).1 (toySig_size 5 exTx (by decide)).2 (by decide)
+  show verifyScript (txCtx exEnv.hashes toyEcdsa (apply (.setValue 0 5) exTx) 1) _ _ _ = _
+  rw [h]
+  exact template_accepts_p2pk (toyCtx exTx) exFlags _ 0x83 (exKey 5) (by decide) (txCtx_inIdx ..) (by decide)
+    (toySig_size 5 exTx (by decide)).1 (toySig_size 5 exTx (by decide)).2
+    (by simp [toyCtx, txCtx, Ctx.env, toyEcdsa, exDigest])
+
+theorem exTx_edited_wf : WFc (apply (.setValue 1 5) exTx) := by
+  refine ⟨by decide, by decide, by decide, by decide, ?_, ?_, by decide⟩
+  · intro x hx
+    have : (apply (.setValue 1 5) exTx).vin = exTx.vin := rfl
+    rw [this] at hx
+    simp only [exTx, List.mem_cons, List.not_mem_nil, or_false] at hx
+    rcases hx with rfl | rfl | rfl <;> exact ⟨⟨by decide, by decide⟩, by decide⟩
+  · intro o ho
+    have : (apply (.setValue 1 5) exTx).vout =
+        [ { nValue := 1000, scriptPubKey := [0x51] }, { nValue := 5, scriptPubKey := [0x52] },
+          { nValue := 0, scriptPubKey := [0x6a] } ] := by decide
+    rw [this] at ho
+    simp only [List.mem_cons, List.not_mem_nil, or_false] at ho
+    rcases ho with rfl | rfl | rfl <;> exact ⟨by decide, by decide, by decide⟩
+
+theorem exTx_wf : WFc exTx := by
+  refine ⟨by decide, by decide, by decide, by decide, ?_, ?_, by decide⟩
+  · intro x hx
+    simp only [exTx, List.mem_cons, List.not_mem_nil, or_false] at hx
+    rcases hx with rfl | rfl | rfl <;> exact ⟨⟨by decide, by decide⟩, by decide⟩
+  · intro o ho
+    simp only [exTx, List.mem_cons, List.not_mem_nil, or_false] at ho
+    rcases ho with rfl | rfl | rfl <;> exact ⟨by decide, by decide, by decide⟩
+
+/-- REJECTS, committed edit: output 1 IS committed; with the signature kept the spend is rejected.
+    Every hypothesis of `p2pk_committed_edit_rejects` is discharged for the toy scheme except `hcr`
+    (SHA-256d does not collide on the two concrete messages), which the kernel cannot evaluate. -/
+example
+    (hcr : Crypto.hash256 (legacyPreimage (p2pkScript (exKey 5)) (apply (.setValue 1 5) exTx) 1 (0x83 : UInt8).toNat) =
+             Crypto.hash256 (legacyPreimage (p2pkScript (exKey 5)) exTx 1 (0x83 : UInt8).toNat) →
+           legacyPreimage (p2pkScript (exKey 5)) (apply (.setValue 1 5) exTx) 1 (0x83 : UInt8).toNat =
+             legacyPreimage (p2pkScript (exKey 5)) exTx 1 (0x83 : UInt8).toNat) :
+    verifyScript (toyCtx (apply (.setValue 1 5) exTx)) exFlags
+      (p2pkScriptSig (toySig (exKey 5) (exDigest exTx) ++ [0x83])) (p2pkScript (exKey 5)) = .error .verify :=
+  p2pk_committed_edit_rejects exEnv.hashes toyEcdsa exTx 1 (.setValue 1 5) exFlags
+    (toySig (exKey 5) (exDigest exTx)) 0x83 (exKey 5) (by decide) (by decide)
+    (toySig_size 5 exTx (by decide)).1 (toySig_size 5 exTx (by decide)).2
+    (by decide) ⟨.value 1, by decide, by decide⟩ exTx_wf exTx_edited_wf (by decide) (by decide) hcr
+    (by
+      intro hne
+      simp only [toyEcdsa, toySig, decide_eq_false_iff_not, List.cons.injEq, true_and, List.append_cancel_left_eq]
+      exact fun h => hne h.symm)
+
+end toy
 
 end BtcVerif.C05
